@@ -17,11 +17,11 @@ const verifL2Keys = 2
 var verifL2KeyNames = [verifL2Keys]string{"a", "b"}
 
 type verifL2Store struct {
-	state     [verifL2Keys]int // 0 absent, 1 fresh, 2 stale (acceptable), 3 too stale
-	val       [verifL2Keys]int
-	now       int64
-	errFault  error
-	faultsOn  bool
+	state    [verifL2Keys]int // 0 absent, 1 fresh, 2 stale (acceptable), 3 too stale
+	val      [verifL2Keys]int
+	now      int64
+	errFault error
+	faultsOn bool
 }
 
 func verifKeyIndex(key []byte) int {
